@@ -190,7 +190,6 @@ def devItems (vis all : List String) : List Item → List String
     (if nItemFound e == nSub e then [] else ["D2"]) ++ devExpr vis all e ++ devItems vis all r
 def devQuery (vis all : List String) : Query → List String
   | .select _ its frm wh grp hav =>
-    (if frm.length > 1 && frm.any (fun fe => match fe with | .mk _ js => !js.isEmpty) then ["D1"] else []) ++
     devItems vis all its ++ devFromExprs vis all frm ++
     (match wh with | some e => (if nDirectWhere e == nSub e then [] else ["D2w"]) ++ devExpr vis all e | none => []) ++
     (if nSubL grp == 0 then [] else ["D3"]) ++ devExprs vis all grp ++
